@@ -2072,6 +2072,11 @@ func (ls *LState) Resume(th *LState, fn *LFunction, args ...LValue) (ResumeState
 }
 
 func (ls *LState) Yield(values ...LValue) int {
+	if ls.nCcalls > 0 {
+		// the interpreter loop that would have to be suspended was entered
+		// from Go code (pcall, a metamethod, an iterator, a callback)
+		ls.RaiseError("attempt to yield across metamethod/C-call boundary")
+	}
 	ls.SetTop(0)
 	for _, lv := range values {
 		ls.Push(lv)
